@@ -315,13 +315,32 @@ def check_C11(run):
         small = [x for x in lengths if x <= 70000]
         big = [x for x in lengths if x > 70000]
         lengths = small + run.rng.sample(big, min(len(big), 24))
+    # byte contents: random for every length; for the lengths around the chunk boundaries also degenerate contents (all zero, a zero
+    # last / first chunk, a zero tail that is not chunk aligned, all 0xff, all newlines) — "for all byte contents"
+    special = [n for n in lengths if n <= 70000 and (n in (0, 1, cfg[3], cfg[0] - 1, cfg[0], cfg[0] + 1) or n >= cfg[0])]
+    if not thorough:
+        special = special[::3] + [cfg[0], cfg[0] + cfg[0] * cfg[1], cfg[0] + cfg[0] * cfg[1] + cfg[0] * cfg[1] * cfg[1]]
+    classes = ['rand'] * len(lengths)
+    for j, n in enumerate(special):
+        lengths.append(n); classes.append(['zero', 'zerolast', 'zerofirst', 'zerotail', 'ff', 'nl'][j % 6])
     model = C.run_model([f'chunks {n}' for n in lengths])
+    def content_of(i, n, cls, m_ans):
+        data = l3.content(i + run.seed * 7919, n)
+        ch = [int(c.split(',')[0]) for c in m_ans[1:-1].split(';')] if m_ans.startswith('[') else [n]
+        if cls == 'zero': return bytes(n)
+        if cls == 'ff': return b'\xff' * n
+        if cls == 'nl': return b'\n' * n
+        if cls == 'zerolast': return data[:n - ch[-1]] + bytes(ch[-1])
+        if cls == 'zerofirst': return bytes(ch[0]) + data[ch[0]:]
+        if cls == 'zerotail': return data[:n // 3] + bytes(n - n // 3)
+        return data
     d = l3.scratch()
     try:
         os.makedirs(os.path.join(d, 'src')); os.makedirs(os.path.join(d, 'dst'))
         lines, datas = [], []
         for i, n in enumerate(lengths):
-            data = l3.content(i + run.seed * 7919, n)
+            data = content_of(i, n, classes[i], model[i])
+            run.count('content:' + classes[i])
             l3.make_tree(os.path.join(d, 'src'), [(f'f{i}', 'F', data, 1_600_000_000_123_456_789 + i)])
             datas.append(data)
             lines.append(l3.l3_line([['SR', C.X(os.path.join(d, 'src'))], ['GFC', C.X(f'f{i}')]], 60000))
@@ -350,7 +369,7 @@ def check_C11(run):
                 run.violation(dict(kind='correspondence-broken', correspondence='L3/chunk-sequence', length=n, impl=lens, model=m_ans,
                                    note='bytes are still delivered exactly; the chunking differs from the model'), no_input=True)
             # writer: the model's chunking onto an absent / shorter / longer destination file
-            if i % (1 if thorough else 3) == 0 or n < 100:
+            if i % (1 if thorough else 3) == 0 or n < 100 or classes[i] != 'rand':
                 pre = ['absent', 'shorter', 'longer'][len(wlines) % 3]
                 if pre != 'absent':
                     pl = max(0, n - 5) if pre == 'shorter' else n + 4097
